@@ -1,12 +1,15 @@
-(* C15 — results do not depend on row order.  Property theorems only (see the MANIFEST note: the writers, full_ln,
-   hitsound_copy and the analysis functions are covered per run by the metamorphic oracle; full_ln also by
-   C17_full_ln_spec, which is stated for every sorted order of the input). *)
+(* C15 — results do not depend on row order.  Property theorems only: each is closed by [exact] from Proofs/PermProofs.v,
+   PermProofs2.v, PermAnalysisProofs.v, PermHitsoundProofs.v, PermWriterProofs.v; Examples show that the hypotheses are
+   satisfiable on non-trivial inputs.  What remains covered only per run (metamorphic oracle in Corr/RunC15.v): the BMS
+   writer, the float printing of every writer, the converters' list wiring, and everything here outside the stated
+   side conditions. *)
 From Coq Require Import ZArith QArith Qround List Bool Sorting.Permutation.
 From RV Require Import Base.PyNum Frame.Frame Lists.TimedList Lists.SeqSpec Map.Stacker Map.StackerSpec Map.Rate
-  Convert.Cast Proofs.TimedListProofs Proofs.PermProofs.
+  Convert.Cast Proofs.TimedListProofs Proofs.CastProofs Proofs.PermProofs Proofs.PermProofs2.
 Import ListNotations.
 Open Scope Q_scope.
 
+(* ====================================================================== 1. lists, rate, filters, conversion *)
 Theorem C15_rate_perm : forall r a b, same_objects a b -> same_objects (rate_spec r a) (rate_spec r b).
 Proof. exact rate_perm. Qed.
 
@@ -26,8 +29,304 @@ Theorem C15_convert_column_perm : forall f g c vs,
   col_vals f c = Some vs -> exists ws, col_vals g c = Some ws /\ Permutation vs ws.
 Proof. exact col_vals_perm. Qed.
 
+(* ConvertBase.cast, WHOLE ROWS: the converted list of a source list with permuted rows is the converted list with its rows
+   permuted - all mapped columns at once (rows as tuples), every source frame (any labels), any declared fields, defaults
+   and mapping; a directly passed value array must be computed row by row from the source (mapping_rel) *)
+Theorem C15_convert_rows_perm : forall f g declared defaults mp mp' out,
+  fcols f = fcols g -> Permutation (abs_rows f) (abs_rows g) -> mapping_rel f g mp mp' ->
+  cast f declared defaults mp = Some out ->
+  exists out', cast g declared defaults mp' = Some out' /\ fcols out' = fcols out
+               /\ Permutation (abs_rows out) (abs_rows out').
+Proof. exact cast_rows_perm. Qed.
+(* a mapping made of column names only is related to itself *)
+Theorem C15_mapping_of_columns : forall f g mp, (forall t s, In (t, s) mp -> exists c, s = FromCol c) -> mapping_rel f g mp mp.
+Proof. exact mapping_rel_cols. Qed.
+
 Example C15_example :
   let a := [mkUlist [0; 1]%Z [[CNum 1000; CNum 1]; [CNum 3000; CNum 2]]] in
   let b := [mkUlist [0; 1]%Z [[CNum 3000; CNum 2]; [CNum 1000; CNum 1]]] in
   same_objects a b.
 Proof. repeat constructor. Qed.
+
+Example C15_convert_rows_example :
+  let f := mkFrame [0; 1; 99]%Z [(4%Z, [CNum 1000; CNum 2; CStr 7]); (5%Z, [CNum 2000; CNum 3; CStr 8]); (9%Z, [CNum 500; CNum 0; CStr 9])] in
+  let g := mkFrame [0; 1; 99]%Z [(0%Z, [CNum 500; CNum 0; CStr 9]); (1%Z, [CNum 2000; CNum 3; CStr 8]); (2%Z, [CNum 1000; CNum 2; CStr 7])] in
+  let mp := [(0, FromCol 0); (1, FromCol 1); (50, FromVals (map (fun r => nth 2 r CNaN) (abs_rows f)))]%Z in
+  let mp' := [(0, FromCol 0); (1, FromCol 1); (50, FromVals (map (fun r => nth 2 r CNaN) (abs_rows g)))]%Z in
+  Permutation (abs_rows f) (abs_rows g) /\ mapping_rel f g mp mp'
+  /\ cast f [0; 1; 50]%Z [CNum 0; CNum 0; CStr 0] mp
+     = Some (mkFrame [0; 1; 50]%Z [(0%Z, [CNum 1000; CNum 2; CStr 7]); (1%Z, [CNum 2000; CNum 3; CStr 8]); (2%Z, [CNum 500; CNum 0; CStr 9])]).
+Proof.
+  split; [|split; [|vm_compute; reflexivity]].
+  - cbn. apply (Permutation_rev [_; _; _]).
+  - repeat constructor.
+Qed.
+
+(* ====================================================================== 2. timing engine (reuses C10's proof) *)
+From RV Require Import Timing.Snapper Timing.Snap Timing.TimingMap Timing.Domain2.
+
+(* tempo changes in any row order, pairwise distinct offsets: the same timing map for positions -> ms, ms -> positions and
+   cumulative beats, for every query list *)
+Theorem C15_timing_perm : forall tbl bcos bcos', Permutation bcos bcos' -> distinct_offsb bcos = true ->
+  (forall qs, tm_offsets tbl bcos' qs = tm_offsets tbl bcos qs)
+  /\ (forall os, tm_snaps tbl bcos' os = tm_snaps tbl bcos os)
+  /\ (forall os, tm_beats tbl bcos' os = tm_beats tbl bcos os).
+Proof. exact timing_perm. Qed.
+(* the side condition is needed (two tempo changes at one time: the stable sort keeps row order) *)
+Theorem C15_timing_perm_needs_distinct_refuted :
+  exists tbl bcos bcos' qs, Permutation bcos bcos' /\ tm_offsets tbl bcos' qs <> tm_offsets tbl bcos qs.
+Proof. exact timing_perm_needs_distinct_refuted. Qed.
+
+Example C15_timing_example :
+  let a := mkBco 240 3 3000 in let b := mkBco 120 3 (-1000) in let c := mkBco 60 3 500 in
+  distinct_offsb [b; c; a] = true /\ Permutation [b; c; a] [a; b; c].
+Proof. split; [vm_compute; reflexivity|]. apply Permutation_sym. apply (Permutation_cons_app [_; _]). apply Permutation_refl. Qed.
+
+(* ====================================================================== 3. full_ln *)
+From RV Require Import Algo.FullLN Algo.FullLNSpec.
+Open Scope Z_scope.
+
+(* full_ln of a chart whose lists have their rows permuted (no two notes of m.hits / m.holds at the same time in one column):
+   it succeeds on both or neither; the generated hits and holds are EQUAL row for row, every other list is carried over *)
+Theorem C15_full_ln_perm : forall m m' gap thr r,
+  ln_chart_perm m m' -> distinct_keysb (stacked m) = true -> full_ln m gap thr = Some r ->
+  exists r', full_ln m' gap thr = Some r' /\ ln_chart_perm r r'
+             /\ slot_notes SHits r' = slot_notes SHits r /\ slot_notes SHolds r' = slot_notes SHolds r.
+Proof. exact full_ln_perm. Qed.
+(* needed: two notes at one time in one column - the later-listed one is processed last and keeps its length *)
+Theorem C15_full_ln_perm_needs_distinct_refuted :
+  exists m m' gap thr r r', ln_chart_perm m m' /\ wf_chart m = true /\ full_ln m gap thr = Some r /\ full_ln m' gap thr = Some r'
+    /\ ~ Permutation (chart_notes r) (chart_notes r').
+Proof. exact full_ln_perm_needs_distinct_refuted. Qed.
+
+Example C15_full_ln_example :
+  let m  := [ mkTL SOther CNone [] [7; 8]; mkTL SHits CHit [mkNote 0 0 None; mkNote 0 1000 None; mkNote 2 300 None; mkNote 1 400 None] [];
+              mkTL SHolds CHold [mkNote 0 400 (Some 50); mkNote 1 0 (Some 10); mkNote 1 700 (Some 2000)] [] ] in
+  let m' := [ mkTL SOther CNone [] [8; 7]; mkTL SHits CHit [mkNote 2 300 None; mkNote 0 1000 None; mkNote 1 400 None; mkNote 0 0 None] [];
+              mkTL SHolds CHold [mkNote 1 700 (Some 2000); mkNote 0 400 (Some 50); mkNote 1 0 (Some 10)] [] ] in
+  distinct_keysb (stacked m) = true /\ wf_chart m = true
+  /\ (exists r, full_ln m 150 100 = Some r /\ full_ln m' 150 100 = Some (map (fun l => match tl_slot l with SOther => mkTL SOther CNone [] [8; 7] | _ => l end) r)).
+Proof. split; [vm_compute; reflexivity|]. split; [vm_compute; reflexivity|]. eexists. split; vm_compute; reflexivity. Qed.
+
+(* ====================================================================== 4. dominant bpm, scroll speed, SV normalisation *)
+From RV Require Import Algo.DominantBpm Algo.ScrollSpeed Algo.AnalysisSpec Proofs.PermAnalysisProofs.
+Open Scope Q_scope.
+
+(* the same VALUE whatever the row order of the tempo, SV and note lists (no two tempo points at one time) *)
+Theorem C15_dominant_bpm_perm : forall c c', an_chart_perm c c' -> distinct_times (tempo_times c) = true ->
+  dominant_bpm c' = dominant_bpm c.
+Proof. exact dominant_bpm_perm. Qed.
+Theorem C15_dominant_bpm_perm_needs_distinct_refuted :
+  exists c c', an_chart_perm c c' /\ dominant_bpm c' <> dominant_bpm c.
+Proof. exact dominant_bpm_perm_needs_distinct_refuted. Qed.
+
+(* SV normalisation: the same SVs (one per tempo row, in the order of the tempo rows) *)
+Theorem C15_sv_normalize_perm : forall c c' ov, an_chart_perm c c' -> distinct_times (tempo_times c) = true ->
+  opt_perm (sv_normalize c ov) (sv_normalize c' ov).
+Proof. exact sv_normalize_perm. Qed.
+
+(* scroll speed: the same breakpoints with the same speeds, in the same order (no two tempo points at one time, coincident
+   SVs carry the same multiplier, offsets given as reduced fractions) *)
+Theorem C15_scroll_speed_perm : forall c c' ov, an_chart_perm c c' ->
+  distinct_times (tempo_times c) = true -> canon_offsets c = true -> svs_agreeb c = true ->
+  scroll_speed c' ov = scroll_speed c ov.
+Proof. exact scroll_speed_perm. Qed.
+(* needed: two SVs at one time with different multipliers - the last ROW wins *)
+Theorem C15_scroll_speed_perm_needs_agree_refuted :
+  exists c c' ov, an_chart_perm c c' /\ distinct_times (tempo_times c) = true /\ canon_offsets c = true
+                  /\ scroll_speed c' ov <> scroll_speed c ov.
+Proof. exact scroll_speed_perm_needs_agree_refuted. Qed.
+
+Example C15_analysis_example :
+  let c  := mkChart [(1000, 240); (0, 120); (2500, 60); (2000, 120); (9000, 480)]
+                    (Some [(-500, 2); (1000, 1 # 2); (1500, 3); (1500, 3); (9500, 4)]) [0; 2750; 4000] in
+  let c' := mkChart [(9000, 480); (2000, 120); (0, 120); (2500, 60); (1000, 240)]
+                    (Some [(1500, 3); (9500, 4); (1000, 1 # 2); (-500, 2); (1500, 3)]) [4000; 0; 2750] in
+  distinct_times (tempo_times c) && canon_offsets c && svs_agreeb c && wf_chart c = true
+  /\ dominant_bpm c' = dominant_bpm c /\ scroll_speed c' None = scroll_speed c None /\ dominant_bpm c = Some 60.
+Proof. vm_compute. repeat split; reflexivity. Qed.
+
+(* ====================================================================== 5. hitsound copy *)
+From RV Require Import Algo.HitsoundCopy Algo.HitsoundCopySpec Proofs.PermHitsoundProofs.
+Open Scope Z_scope.
+
+(* source and target note lists in any row order AND any tie order of the two unstable sorts: the same notes (multiset of
+   time, column, length, kind) and per time the same multiset of sounds, a sound being carried by a note or played as an event
+   sample (source volumes >= 0; the target's holds have a length) *)
+Theorem C15_hitsound_copy_perm : forall psrc ptgt psrc' ptgt' src tgt src' tgt' out out',
+  hmap_perm src src' -> hmap_perm tgt tgt' ->
+  src_vol_ok src = true -> forallb (fun r => is_some (hn_len r)) (hm_holds tgt) = true ->
+  hitsound_copy psrc ptgt src tgt = Some out -> hitsound_copy psrc' ptgt' src' tgt' = Some out' ->
+  meq ident_eqb (idents out) (idents out') /\ meq atom_eqb (sounds out) (sounds out').
+Proof. exact hitsound_copy_perm. Qed.
+(* the stricter reading - the NOTES carry the same sounds, event samples compared separately - is FALSE of the routine when
+   named samples overflow the target's notes: which file lands on the note follows the source's row order *)
+Theorem C15_hitsound_copy_strict_refuted :
+  exists psrc ptgt src src' tgt out out',
+    hmap_perm src src' /\ src_vol_ok src = true /\ wf src tgt = true /\ no_semicolon src = true
+    /\ hitsound_copy psrc ptgt src tgt = Some out /\ hitsound_copy psrc ptgt src' tgt = Some out'
+    /\ ~ meq atom_eqb (note_atoms out) (note_atoms out').
+Proof. exact hs_strict_refuted. Qed.
+(* the guard on the source volumes is needed (notes get max(volume, 0), event samples the raw volume) *)
+Theorem C15_hitsound_copy_negative_volume_refuted :
+  exists psrc ptgt src src' tgt out out',
+    hmap_perm src src'
+    /\ hitsound_copy psrc ptgt src tgt = Some out /\ hitsound_copy psrc ptgt src' tgt = Some out'
+    /\ ~ meq atom_eqb (sounds out) (sounds out').
+Proof. exact hs_negative_volume_refuted. Qed.
+
+Example C15_hitsound_example :
+  let src  := mkM [mkN 8 0 None 2 0 0 0 20 [0]; mkN 8 1 None 4 0 0 0 20 [0]; mkN 8 3 None 2 0 0 0 30 [0]; mkN 24 0 None 0 0 0 0 50 [7]]
+                  [mkN 8 4 (Some 16) 12 0 0 0 40 [0]; mkN 8 5 (Some 16) 0 0 0 0 20 [1]] [] in
+  let src' := mkM [mkN 24 0 None 0 0 0 0 50 [7]; mkN 8 3 None 2 0 0 0 30 [0]; mkN 8 0 None 2 0 0 0 20 [0]; mkN 8 1 None 4 0 0 0 20 [0]]
+                  [mkN 8 5 (Some 16) 0 0 0 0 20 [1]; mkN 8 4 (Some 16) 12 0 0 0 40 [0]] [] in
+  let tgt  := mkM [mkN 8 0 None 0 1 0 0 0 [0]; mkN 8 1 None 0 0 0 0 70 [0]; mkN 8 2 None 0 0 0 0 0 [0]; mkN 16 2 None 0 0 0 0 0 [0]]
+                  [mkN 8 3 (Some 80) 0 0 0 0 0 [0]; mkN 24 3 (Some 8) 0 0 0 0 0 [0]] [] in
+  src_vol_ok src = true /\ forallb (fun r => is_some (hn_len r)) (hm_holds tgt) = true
+  /\ (exists out, hitsound_copy [0;1;2;4;5;3]%nat [0;1;2;4;3;5]%nat src tgt = Some out)
+  /\ (exists out', hitsound_copy [1;2;3;5;4;0]%nat [0;1;2;4;3;5]%nat src' tgt = Some out').
+Proof. split; [vm_compute; reflexivity|]. split; [vm_compute; reflexivity|]. split; eexists; vm_compute; reflexivity. Qed.
+
+(* ====================================================================== 6. writers *)
+From RV Require Base.Text Formats.Osu Formats.OsuSpec Formats.Qua Formats.QuaSpec Formats.SMText Formats.SM Proofs.PermWriterProofs.
+From RV Require Import Timing.TimingMap Proofs.TimingProofs Proofs.TimingProofs2.
+Module OP := PermWriterProofs.OsuPerm.
+Module QP := PermWriterProofs.QuaPerm.
+Module SP := PermWriterProofs.SMPerm.
+
+(* ---- osu!: EVERY chart.  The file written from the permuted chart exists iff the other does, has the same head (metadata,
+   events) and, section by section (sample events, tempo lines, SV lines, note lines), the same multiset of lines *)
+Theorem C15_osu_write_perm : forall c c' ut ua d, OP.chart_perm c c' -> Osu.osu_write c ut ua = Some d ->
+  exists sm bl sl nl sm' bl' sl' nl',
+    d = OP.osu_doc (OP.head_of c ut ua) sm bl sl nl
+    /\ Osu.osu_write c' ut ua = Some (OP.osu_doc (OP.head_of c ut ua) sm' bl' sl' nl')
+    /\ Permutation sm sm' /\ Permutation bl bl' /\ Permutation sl sl' /\ Permutation nl nl'.
+Proof. exact OP.osu_write_perm. Qed.
+(* ... and the format's reference denotation (OsuSpec.denote_tp / denote_ho, used by osu_denote) reads those sections line by
+   line, so for ANY line-wise rendering of the numeric tokens the permuted sections denote the permuted objects *)
+Theorem C15_osu_timing_section_denotes_perm : forall (rn : Osu.wline -> Text.text) bl sl bl' sl' tps,
+  Permutation bl bl' -> Permutation sl sl' ->
+  Osu.omap OsuSpec.denote_tp (filter Osu.nonempty (map rn (bl ++ sl))) = Some tps ->
+  exists tps', Osu.omap OsuSpec.denote_tp (filter Osu.nonempty (map rn (bl' ++ sl'))) = Some tps'
+    /\ Permutation (OsuSpec.pick_bpms tps) (OsuSpec.pick_bpms tps') /\ Permutation (OsuSpec.pick_svs tps) (OsuSpec.pick_svs tps').
+Proof. exact OP.osu_timing_section_denotes_perm. Qed.
+Theorem C15_osu_note_section_denotes_perm : forall (rn : Text.text -> Text.text) keys nl nl' hos,
+  Permutation nl nl' ->
+  Osu.omap (OsuSpec.denote_ho keys) (filter Osu.nonempty (map rn nl)) = Some hos ->
+  exists hos', Osu.omap (OsuSpec.denote_ho keys) (filter Osu.nonempty (map rn nl')) = Some hos'
+    /\ Permutation (OsuSpec.pick_hits hos) (OsuSpec.pick_hits hos') /\ Permutation (OsuSpec.pick_holds hos) (OsuSpec.pick_holds hos').
+Proof. exact OP.osu_note_section_denotes_perm. Qed.
+
+(* ---- Quaver: EVERY chart and default table.  The document written from the permuted chart exists iff the other does and
+   DENOTES (QuaSpec.qua_denote) the same multisets of notes, timing points and scroll velocities and the same metadata *)
+Theorem C15_qua_write_perm : forall md c c' d, QP.chart_perm c c' -> Qua.qua_write md c = Some d ->
+  exists d', Qua.qua_write md c' = Some d'
+    /\ forall e, QuaSpec.qua_denote d = Some e ->
+         exists e', QuaSpec.qua_denote d' = Some e'
+                    /\ Permutation (QuaSpec.d_notes e) (QuaSpec.d_notes e') /\ Permutation (QuaSpec.d_bpms e) (QuaSpec.d_bpms e')
+                    /\ Permutation (QuaSpec.d_svs e) (QuaSpec.d_svs e') /\ QuaSpec.d_meta e = QuaSpec.d_meta e'.
+Proof. exact QP.qua_write_perm. Qed.
+
+(* ---- StepMania, note data.  (a) EVERY list of placed events: the measure texts are the same for every order of the events
+   in which events with different characters keep their relative order (what permuting rows inside each list gives); no
+   "one note per cell" condition *)
+Theorem C15_sm_grid_perm : forall cf v ps ps' keys, SP.cperm ps ps' -> SP.body_of_placed cf v ps keys = SP.body_of_placed cf v ps' keys.
+Proof. exact SP.sm_body_cperm. Qed.
+Theorem C15_sm_body_is_grid : forall cf v c, SM.chart_body cf v c =
+  match SM.chart_placed cf c with None => None | Some ps => SP.body_of_placed cf v ps (SM.get_keys cf (SM.c_type c)) end.
+Proof. exact SP.chart_body_placed. Qed.
+(* the row count of a measure (lcm of the denominators, capped at every step of a left fold) does not depend on the order *)
+Theorem C15_sm_den_max_perm : forall cf l l', Permutation l l' -> SM.den_max_of cf l = SM.den_max_of cf l'.
+Proof. exact SP.den_max_of_perm. Qed.
+(* (b) whole chart: tempo rows and the rows of the seven note lists in any order give the SAME note data text, on the boolean
+   domain: pairwise distinct tempo offsets, one metronome M, every event time converts to a normalised position *)
+Theorem C15_sm_chart_body_perm : forall cf v (M : Q) c c' bcss, (0 < M)%Q -> SP.sm_chart_perm c c' ->
+  distinct_offsb (SM.bcos_of (SM.c_bpms c)) = true ->
+  bco_to_bcs (SM.k_tbl cf) (sort_by bco_lt (SM.bcos_of (SM.c_bpms c))) = Some bcss ->
+  SP.beat_dom (SM.k_tbl cf) M (rev (combine (sort_by bco_lt (SM.bcos_of (SM.c_bpms c))) bcss))
+              (map SP.ev_off (SM.chart_events cf c)) = true ->
+  SM.chart_body cf v c' = SM.chart_body cf v c.
+Proof. exact SP.sm_chart_body_perm_dom. Qed.
+(* on that domain the cumulative beat TimingMap.beats returns is a FUNCTION of the query time (any other queries, any order) *)
+Theorem C15_beats_is_function : forall tbl (M : Q), (0 < M)%Q -> forall bcos bcss os,
+  bco_to_bcs tbl (sort_by bco_lt bcos) = Some bcss ->
+  SP.beat_dom tbl M (rev (combine (sort_by bco_lt bcos) bcss)) os = true ->
+  tm_beats tbl bcos os = Some (map (SP.beat_of tbl M (rev (combine (sort_by bco_lt bcos) bcss))) os).
+Proof. exact SP.tm_beats_fun. Qed.
+(* (c) header: the #BPMS tag lists the same multiset of beat=bpm pairs, every other header line is identical *)
+Theorem C15_sm_bpms_tag_perm : forall cf v (M : Q) s s' c0 c0' rest rest' off bcss md, (0 < M)%Q ->
+  SM.s_txt s = SM.s_txt s' -> SM.s_offset s = Some off -> SM.s_offset s' = Some off -> SM.s_sstart s = SM.s_sstart s' ->
+  SM.s_slen s = SM.s_slen s' -> SM.s_sel s = SM.s_sel s' -> SM.s_maps s = c0 :: rest -> SM.s_maps s' = c0' :: rest' ->
+  Permutation (SM.c_bpms c0) (SM.c_bpms c0') ->
+  distinct_offsb (SM.bcos_of (SM.c_bpms c0)) = true ->
+  bco_to_bcs (SM.k_tbl cf) (sort_by bco_lt (SM.bcos_of (SM.c_bpms c0))) = Some bcss ->
+  let full := rev (combine (sort_by bco_lt (SM.bcos_of (SM.c_bpms c0))) bcss) in
+  SP.beat_dom (SM.k_tbl cf) M full (map (fun b : Q * Q * Q => fst (fst b)) (SM.c_bpms c0)) = true ->
+  SM.write_metadata cf v s = Some md ->
+  exists pairs pairs', md = SP.meta_lines v s off pairs /\ SM.write_metadata cf v s' = Some (SP.meta_lines v s off pairs')
+                       /\ Permutation pairs pairs'.
+Proof. exact SP.sm_bpms_tag_perm. Qed.
+
+(* ---- non-vacuity of the writer theorems *)
+Open Scope Z_scope.
+Example C15_osu_example :
+  let h t c := Osu.mkNote t c 0 0 0 0 0 0 [] in
+  let c  := Osu.mkChart Osu.meta_default [] [Osu.mkSample 10 [97%Z] 50; Osu.mkSample 5 [98%Z] 60]
+              [Osu.mkBpm 0 120 4 0 0 100 false; Osu.mkBpm 2000 240 4 0 0 100 false] [Osu.mkSv 500 2 0 0 100 false; Osu.mkSv 250 (1#2) 0 0 100 false]
+              [h 1000%Q 1; h 0%Q 0; h 1000%Q 2] [Osu.mkNote 500 3 250 0 0 0 0 0 []; Osu.mkNote 0 1 125 0 0 0 0 0 []] in
+  let c' := Osu.mkChart Osu.meta_default [] [Osu.mkSample 5 [98%Z] 60; Osu.mkSample 10 [97%Z] 50]
+              [Osu.mkBpm 2000 240 4 0 0 100 false; Osu.mkBpm 0 120 4 0 0 100 false] [Osu.mkSv 250 (1#2) 0 0 100 false; Osu.mkSv 500 2 0 0 100 false]
+              [h 1000%Q 2; h 1000%Q 1; h 0%Q 0] [Osu.mkNote 0 1 125 0 0 0 0 0 []; Osu.mkNote 500 3 250 0 0 0 0 0 []] in
+  OP.chart_perm c c' /\ (exists d, Osu.osu_write c [] [] = Some d) /\ Osu.osu_write c [] [] <> Osu.osu_write c' [] [].
+Proof.
+  split; [|split].
+  - repeat split; try reflexivity; try apply perm_swap. apply (Permutation_cons_app [_] [_]). apply perm_swap.
+  - eexists. vm_compute. reflexivity.
+  - vm_compute. discriminate.
+Qed.
+
+Example C15_qua_example :
+  let hits  := Qua.mkFrame [Qua.N_offset; Qua.N_column; Qua.N_keysounds]
+                 [[(Qua.N_offset, Qua.YInt 1000); (Qua.N_column, Qua.YInt 1); (Qua.N_keysounds, Qua.YList [])];
+                  [(Qua.N_offset, Qua.YInt 0); (Qua.N_column, Qua.YInt 0); (Qua.N_keysounds, Qua.YList [])]] in
+  let hits' := Qua.mkFrame [Qua.N_offset; Qua.N_column; Qua.N_keysounds]
+                 [[(Qua.N_offset, Qua.YInt 0); (Qua.N_column, Qua.YInt 0); (Qua.N_keysounds, Qua.YList [])];
+                  [(Qua.N_offset, Qua.YInt 1000); (Qua.N_column, Qua.YInt 1); (Qua.N_keysounds, Qua.YList [])]] in
+  let holds := Qua.mkFrame [Qua.N_offset; Qua.N_column; Qua.N_keysounds; Qua.N_length]
+                 [[(Qua.N_offset, Qua.YInt 500); (Qua.N_column, Qua.YInt 2); (Qua.N_keysounds, Qua.YList []); (Qua.N_length, Qua.YInt 250)]] in
+  let bpms  := Qua.mkFrame [Qua.N_offset; Qua.N_bpm; Qua.N_metronome]
+                 [[(Qua.N_offset, Qua.YInt 2000); (Qua.N_bpm, Qua.YInt 240); (Qua.N_metronome, Qua.YInt 4)];
+                  [(Qua.N_offset, Qua.YInt 0); (Qua.N_bpm, Qua.YInt 120); (Qua.N_metronome, Qua.YInt 4)]] in
+  let bpms' := Qua.mkFrame [Qua.N_offset; Qua.N_bpm; Qua.N_metronome]
+                 [[(Qua.N_offset, Qua.YInt 0); (Qua.N_bpm, Qua.YInt 120); (Qua.N_metronome, Qua.YInt 4)];
+                  [(Qua.N_offset, Qua.YInt 2000); (Qua.N_bpm, Qua.YInt 240); (Qua.N_metronome, Qua.YInt 4)]] in
+  let svs   := Qua.mkFrame [Qua.N_offset; Qua.N_multiplier] [[(Qua.N_offset, Qua.YInt 250); (Qua.N_multiplier, Qua.YFloat 2)]] in
+  let c  := Qua.mkChart hits holds bpms svs (map snd Qua.Live.meta_defaults) in
+  let c' := Qua.mkChart hits' holds bpms' svs (map snd Qua.Live.meta_defaults) in
+  QP.chart_perm c c' /\ (exists d e, Qua.Live.write c = Some d /\ QuaSpec.qua_denote d = Some e) /\ Qua.Live.write c <> Qua.Live.write c'.
+Proof.
+  split; [|split].
+  - repeat split; try reflexivity; try apply perm_swap; apply Permutation_refl.
+  - eexists. eexists. split; [vm_compute; reflexivity|]. vm_compute. reflexivity.
+  - vm_compute. discriminate.
+Qed.
+
+From Coq Require Import String.
+From RV Require Generated.Tables Formats.SMSpec.
+Example C15_sm_example :
+  let cf := SMSpec.ref_conf Tables.Tables.snapper_table [(SMText.tx "dance-single"%string, Some 4%Z)] in
+  let c  := SM.mkChart (SMText.tx "dance-single"%string) [] [] 1 [] [(2000, 240, 4); (0, 120, 4)]%Q
+              [(1000%Q, 1%Z); (0%Q, 0%Z); (2250%Q, 3%Z)] [(500%Q, 2%Z, 250%Q); (2000%Q, 0%Z, 500%Q)] [] [(1500%Q, 3%Z); (250%Q, 1%Z)] [] [] [] in
+  let c' := SM.mkChart (SMText.tx "dance-single"%string) [] [] 1 [] [(0, 120, 4); (2000, 240, 4)]%Q
+              [(2250%Q, 3%Z); (1000%Q, 1%Z); (0%Q, 0%Z)] [(2000%Q, 0%Z, 500%Q); (500%Q, 2%Z, 250%Q)] [] [(250%Q, 1%Z); (1500%Q, 3%Z)] [] [] [] in
+  SP.sm_chart_perm c c' /\ distinct_offsb (SM.bcos_of (SM.c_bpms c)) = true
+  /\ (exists bcss, bco_to_bcs (SM.k_tbl cf) (sort_by bco_lt (SM.bcos_of (SM.c_bpms c))) = Some bcss
+        /\ SP.beat_dom (SM.k_tbl cf) 4 (rev (combine (sort_by bco_lt (SM.bcos_of (SM.c_bpms c))) bcss)) (map SP.ev_off (SM.chart_events cf c)) = true)
+  /\ (exists body, SM.chart_body cf SM.current c = Some body).
+Proof.
+  split; [|split; [|split]].
+  - repeat split; try reflexivity; try apply perm_swap; try apply Permutation_refl. apply (Permutation_cons_app [_] [_]). apply perm_swap.
+  - vm_compute. reflexivity.
+  - eexists. split; [vm_compute; reflexivity|]. vm_compute. reflexivity.
+  - eexists. vm_compute. reflexivity.
+Qed.
